@@ -16,7 +16,7 @@ LEVEL_TEXT = ('PARTIAL. Decided statically: for N=1 the forward and inverse quer
               'pair y = L + x(U-L), x = (y-L)/(U-L); the box->cube and cube->box transforms are algebraic inverses; '
               'both directions iterate the configured number of levels with the same radix, the inverse accumulating '
               'x += digit * B^-(j+1); GetInverseImage and GetPreimages have the same summaries; the inverse queries '
-              'establish a float working array. NOT decided: that the number rule mirrors the node rule for N >= 2.')
+              'establish a float working array. The evolvent keeps no process-wide state; the inverse queries make no exact equality test on a transformed coordinate. NOT decided: that the number rule mirrors the node rule for N >= 2.')
 EXPLANATION = ('Path summaries of the two queries with N fixed to 1 are compared with the affine formulas by '
                'cross-multiplication; the composition of the two coordinate transforms is reduced to the identity; '
                'the per-level accumulation of the inverse descent is normalised for two levels; sibling agreement is '
